@@ -14,12 +14,6 @@ def mutexv2 : ModelEntries :=
   ("mutexv2", MutexV2.configs.map (fun (n, c) =>
       (n, mkEntry (MutexV2.sys c) MutexV2.obsOf (MutexV2.final c))))
 
-/-- the v2 scenarios with stop requests against the model of the REPAIRED completion_forwarder
-    (used by the check when completion_forwarder.hpp no longer forwards the waiter's stop token) -/
-def mutexv2fix : ModelEntries :=
-  ("mutexv2fix", (MutexV2.configs.filter (fun (n, _) => (MutexV2.configsFixed.lookup n).isNone) ++ MutexV2.configsFixed).map
-      (fun (n, c) => (n, mkEntry (MutexV2.sys c) MutexV2.obsOf (MutexV2.final c))))
-
 /-- `ask alist lin | history` — linearizability of an observed atomic_intrusive_list history -/
 def alist : ModelEntries :=
   ("alist", [("lin", { admitH := fun _ => Unifex.Core.Verdict.reject 0 "use ask" [], states := fun _ => 0,
